@@ -548,15 +548,18 @@ def mixture_rules(ctx):
                             ('S', 'self._S(phase, mol, T, P)', 'self._S_excess(phase, mol, T, P)')):
         f = prog.method('Mixture', name, rel=MIX)
         for flag in (False, True):
-            def decide(test, st, flag=flag):
-                s = src(test)
+            from ..pathcond import scenario_decide
+
+            def atom(t, flag=flag):
+                s = src(t)
                 if s == 'self.include_excess_energies':
                     return flag
-                if s == 'not mol.dct':
-                    return False
-                if 'SparseVector' in s:
-                    return False
+                if s == 'mol.dct':
+                    return True                      # a non-empty composition
+                if isinstance(t, ast.Compare) and 'SparseVector' in s and len(t.ops) == 1:
+                    return isinstance(t.ops[0], (ast.Is, ast.Eq))      # the composition already is a sparse vector
                 return None
+            decide = scenario_decide(atom)
             ps = ret_forms(f, decide)
             want = Form.atom(base) + (Form.atom(exc) if flag else Form())
             good = len(ps) == 1 and ps[0].ret == want
